@@ -101,7 +101,7 @@ def run(ctx):
     # ------------------------------------------------------------------ A2 next
     N = hirq.Body(f, f.body(PR + 'next'))
     ctx.analysed['bodies'].add(N.path)
-    outs = absx.Interp(f, N, unroll=1, for_once=True, combinators=True).run(root=inner(N.root))
+    outs = absx.Interp(f, N, unroll=1, for_once=True, combinators=True, inline=lambda cal: cal.startswith('ldap3::ldap::Ldap::with_')).run(root=inner(N.root))
     seen = set()
     for o in outs:
         ups = [e for e in o.st.ev if e[0] == 'call' and e[1].endswith("SearchStream::<'a, S, A>::next")]
@@ -174,7 +174,18 @@ def run(ctx):
         okc = H2[0] == 'call' and H2[1].endswith('::clone') and H2[2][0] == saved
         args_ok = s[2][1:] == (('field', SELF, 'base'), ('field', SELF, 'scope'), ('field', SELF, 'filter'), ('variant', ('field', SELF, 'attrs'), 'Some', 0))
         h = o.st.heap
-        okt = h.get(('field', H2, 'timeout')) == ('field', saved, 'timeout') and h.get(('field', H2, 'search_opts')) == ('field', saved, 'search_opts')
+        def carried_over(fld):
+            """the new handle's modifier `fld` is the saved handle's on this path: copied, or set to Some(x) where the saved one is Some(x),
+            or left alone where the saved one is None (a cloned handle starts without modifiers - C02 M4)"""
+            have, want = h.get(('field', H2, fld)), ('field', saved, fld)
+            if have is not None and sem.strip_site(have) == sem.strip_site(want):
+                return True
+            is_some = next((t for a, t in o.st.pc if a == ('is', want, 'Some')), None)
+            if have is None:
+                return is_some is False
+            inner_v = ('variant', want, 'Some', 0)
+            return is_some is True and have[0] == 'ctor' and have[1] == 'Some' and len(have[2]) == 1 and sem.strip_site(have[2][0]) in (inner_v, ('call', 'clone', (inner_v,), None))
+        okt = carried_over('timeout') and carried_over('search_opts')
         c2 = h.get(('field', H2, 'controls'), ('unk',))
         v = c2[2][0] if c2[0] == 'ctor' and c2[1] == 'Some' else ('unk',)
         okv = v[0] == 'vecpush' and v[1] == ('variant', ('field', saved, 'controls'), 'Some', 0) and is_paging(v[2], lambda x: x == ('field', SELF, 'page_size'), lambda c: c == cookie)
